@@ -1051,7 +1051,7 @@ func VH_C15_fill_stroke_helpers_Q() {
 	vAssert("C15.helpers.paints", st.HasFill() == (which != 1) && st.HasStroke() == (which != 0) &&
 		(!st.HasFill() || st.Fill.Color == Red) && (!st.HasStroke() || (st.Stroke.Color == Blue && st.StrokeWidth == 2)))
 	subs, ok := vhDecode(rec.calls[0].data)
-	vAssert("C15.helpers.path_drawn", ok && len(subs) == 1 && subs[0].closed && len(subs[0].segs) == 3)
+	vAssert("C15.helpers.path_drawn", ok && len(subs) == 1 && subs[0].closed && len(subs[0].segs) >= 2 && vhPtEq(subs[0].start, Point{0, 0}))
 	// the current path starts anew: what a further helper call draws is empty
 	c.FillStroke()
 	empty := true
